@@ -84,6 +84,13 @@ func c09checkRelay(c *Ctx, name string, r c09relay) {
 	}
 	// same iteration: the read dominates the write
 	okSlice = okSlice && dominatesInstr(rd, call)
+	accum := false
+	if r.rsl != nil {
+		// an accumulating read `m, err := src.Read(buf[n:]); n += m` in a loop, relayed after the loop by ONE write of
+		// buf[0:n]: n counts what all reads returned (round 4)
+		accum = true
+		okSlice = c09accumRelay(r)
+	}
 	c.check("C09.B3", name+"|writes exactly the bytes just read", call.Pos(), okSlice,
 		"the relay must write buf[0:n] with n the count returned by the read of the same buffer in this iteration; anything else drops, duplicates or invents bytes")
 	// short write / write error leave with an error
@@ -110,7 +117,12 @@ func c09checkRelay(c *Ctx, name string, r c09relay) {
 		}
 		return sl != nil && lc.Call.Args[0] == ssa.Value(sl)
 	}
-	isNr := func(v ssa.Value) bool { return nr != nil && (v == nr || isLenOfWritten(v)) }
+	isNr := func(v ssa.Value) bool {
+		if accum {
+			return sl != nil && (v == sl.High || isLenOfWritten(v)) // the count accumulated over the reads
+		}
+		return nr != nil && (v == nr || isLenOfWritten(v))
+	}
 	shortChecked, errChecked := false, false
 	eachInstr(f, func(j ssa.Instruction) {
 		b, ok := j.(*ssa.BinOp)
@@ -131,8 +143,8 @@ func c09checkRelay(c *Ctx, name string, r c09relay) {
 		"a write that fails or accepts fewer bytes than were read must end the copy (error): continuing silently loses the remainder")
 	// a streaming relay (one Read per iteration) writes what the Read returned before it looks at the Read's error;
 	// a one-shot relay (handshake) may give up on a read error
-	if !c09inLoop(rd, 0) {
-		return
+	if !c09inLoop(rd, 0) || accum {
+		return // the loop of an accumulating read collects ONE message (a handshake), it does not stream
 	}
 	isReadErr := func(v ssa.Value) bool {
 		e, ok := v.(*ssa.Extract)
@@ -166,6 +178,66 @@ func c09checkRelay(c *Ctx, name string, r c09relay) {
 	})
 	c.check("C09.B3", name+"|bytes returned together with an error are still written", call.Pos(), !dep,
 		"io.Reader may return n > 0 together with an error (crypto/tls returns the last record with io.EOF when close_notify arrives in the same segment); the relay must write buf[0:n] before it examines the read error, otherwise the final bytes of a stream are dropped")
+}
+
+// c09accumRelay: the relay reads into the window buf[n:] and writes buf[0:hi] where n is a counter that starts at 0 and
+// grows by the count every such read returned, hi is that counter, the counter has been advanced past the last read on
+// every path from the read to the write, and the write is outside the read's loop (inside it, it would send the
+// bytes of the earlier reads again).
+func c09accumRelay(r c09relay) bool {
+	sl, win := r.sl, r.rsl
+	if sl == nil || win == nil || win.High != nil || sl.High == nil || !(sl.Low == nil || isZero(sl.Low)) {
+		return false
+	}
+	var adds []ssa.Instruction
+	seen := map[ssa.Value]bool{}
+	var counter func(v ssa.Value) bool
+	counter = func(v ssa.Value) bool {
+		if seen[v] {
+			return true
+		}
+		switch x := v.(type) {
+		case *ssa.Phi:
+			seen[v] = true
+			for _, e := range x.Edges {
+				if !isZero(e) && !counter(e) {
+					return false
+				}
+			}
+			return true
+		case *ssa.BinOp:
+			if x.Op != token.ADD {
+				return false
+			}
+			isCount := func(y ssa.Value) bool {
+				e, ok := y.(*ssa.Extract)
+				return ok && e.Tuple == ssa.Value(r.rd) && e.Index == 0
+			}
+			if (isCount(x.Y) && counter(x.X)) || (isCount(x.X) && counter(x.Y)) {
+				seen[v] = true
+				adds = append(adds, x)
+				return true
+			}
+		}
+		return false
+	}
+	if !counter(win.Low) || !counter(sl.High) || len(adds) == 0 {
+		return false
+	}
+	for _, l := range loopsOf(r.fn) {
+		if l.Body[r.rd.Block()] && l.Body[r.wr.Block()] {
+			return false
+		}
+	}
+	isAdd := func(i ssa.Instruction) bool {
+		for _, a := range adds {
+			if a == i {
+				return true
+			}
+		}
+		return false
+	}
+	return !pathAvoiding(r.rd, r.wr, isAdd)
 }
 
 // ---- B6: Peek --------------------------------------------------------------------------------------------------------
